@@ -6,7 +6,7 @@ ROOT='/verif'
 env=dict(os.environ, GOFLAGS='-mod=mod', GOPROXY='off', GOSUMDB='off', GOTOOLCHAIN='local'); env.pop('GOWORK',None)
 claimed=sorted(json.load(open(f'{ROOT}/tools/claims.json'))['claimed'].keys())
 props=os.environ.get('BN_PROPS'); props=props.split(',') if props else claimed
-ids=sys.argv[1:] or sorted(os.listdir(f'{ROOT}/benign'), key=lambda x:int(x) if x.isdigit() else 999)
+ids=sys.argv[1:] or sorted([d for d in os.listdir(f'{ROOT}/benign') if d.isdigit()], key=int)
 def run(bid):
     tmp=tempfile.mkdtemp(prefix='benign-')
     out=[]
